@@ -27,6 +27,8 @@ class C02World(E2EWorld):
             # Finished PDU of an acknowledged metadata-only transfer without closure (answered by the shell)
             v.append(Violation(P, "C02.stray_pdu", f"{ev}: PDU {obs.get('pdu')} arrived for a transaction the addressed entity had already closed "
                                                     f"(fault-free link: the sender emitted a PDU that does not belong to the transfer)", pdu=obs.get("pdu", "?")[:3]))
+        if ev[0] == "putbusy" and obs.get("S", {}).get("ret") is not False:
+            v.append(Violation(P, "C02.busy_put_accepted", f"put request on the busy source handler returned {obs.get('S', {}).get('ret')!r}, expected False"))
         for who in ("S", "D"):
             o = obs.get(who)
             if not o:
@@ -103,6 +105,11 @@ def configs(tier: str):
     for (mode, closure), size in itertools.product((("ack", False), ("unack", True), ("unack", False)), (0, L + 1)):
         add(mode=mode, closure=closure, size=size, tx2=dict(md_only=True))
         add(mode=mode, closure=closure, size=size, md_only=True, tx2=dict(md_only=False))
+    # a premature put request (refused: the handler is busy) at any point of the transfer must leave it alone
+    for mode, closure, size, md in itertools.product(("ack", "unack"), (False, True), (0, L + 1, 2 * L + 1), (False, True)):
+        if md and size:
+            continue
+        add(mode=mode, closure=closure, size=size, md_only=md, busy_puts=1)
     # zero-filled content
     for mode in ("ack", "unack"):
         add(mode=mode, closure=True, size=L + 1, zero=True)
